@@ -1,6 +1,8 @@
 import PeliteModel.Driver.Image
 import PeliteModel.Model.Convert
-/-! Driver handlers for `to_view` / `to_file` (C06). -/
+import PeliteModel.Model.PeChecked
+/-! Driver handlers for `to_view` / `to_file` (C06); they run the CHECKED variants
+(`Model/PeChecked.lean`), proved equal to the unchecked model in `Thm/C02Arith.lean`. -/
 namespace Pelite.Driver
 open Pelite.Proto Pelite.Pe
 
@@ -24,8 +26,9 @@ def convert (img : Option Img) (fam : String) (k : String) : Option Bytes × Str
       else if !toView && v.kind != .view then (none, "bad-op")
       else if sizeOfImage v.b > convCap then (none, "toolarge")
       else
-        let out := if toView then v.toView else v.toFile
-        (some out, s!"ok len={out.size} fnv={fnv out}")
+        match (if toView then v.toViewChk else v.toFileChk) with
+        | .ok out => (some out, s!"ok len={out.size} fnv={fnv out}")
+        | o => (none, outStr (fun _ => "") o)
     | some (.err e) => (none, "noimg " ++ e.name)
     | some o => (none, outStr (fun _ => "") o)
 
